@@ -982,8 +982,14 @@ func stripFrameworkTickMetadata(meta arrow.Metadata) arrow.Metadata {
 // batches, the later ticks in that turn legitimately see empty metadata — the
 // client has no opportunity to update mid-turn.
 func (h *HttpServer) runProduceLoop(ctx context.Context, writer *ipc.Writer, schema *arrow.Schema,
-	state ProducerState, info *methodInfo, stats *CallStatistics, auth *AuthContext, transportMeta map[string]string, cookies map[string]string, sink *stickySink, firstTickMeta arrow.Metadata, bodyLen func() int) (bool, error) {
+	state ProducerState, info *methodInfo, stats *CallStatistics, auth *AuthContext, transportMeta map[string]string, cookies map[string]string, sink *stickySink, firstTickMeta arrow.Metadata, bodyLenFn ...func() int) (bool, error) {
 
+	// bodyLenFn is the optional probe for the bytes written to the response
+	// body so far (max_response_bytes); callers without a body pass none.
+	var bodyLen func() int
+	if len(bodyLenFn) > 0 {
+		bodyLen = bodyLenFn[0]
+	}
 	dataBatches := 0
 	firstTick := true
 	// Running external-channel total for this HTTP turn. The wire cap is
